@@ -245,15 +245,30 @@ func (eq *externalBaseQueue) Worker() Worker {
 }
 
 func (eq *externalBaseQueue) Purge() {
-	prevValues := eq.q.Values()
-	eq.q.Purge()
+	// an acknowledging adapter owns its items; leave the purge to it
+	if _, ok := eq.q.(IAcknowledgeable); ok {
+		eq.q.Purge()
+		eq.w.notifyToPullNextJobs()
+		return
+	}
 
-	// close all pending channels to avoid routine leaks
-	for _, val := range prevValues {
+	// take the jobs out one by one, so that every job removed here is also closed here and a job
+	// enqueued concurrently is either removed-and-closed or left pending
+	for {
+		val, ok := eq.q.Dequeue()
+
+		if !ok {
+			break
+		}
+
+		// close all pending channels to avoid routine leaks
 		if j, ok := val.(io.Closer); ok {
 			j.Close()
 		}
 	}
+
+	// let the event loop re-evaluate the waiters, the queue shrank without any job finishing
+	eq.w.notifyToPullNextJobs()
 }
 
 func (eq *externalBaseQueue) Close() error {
